@@ -26,7 +26,9 @@ type LCase struct {
 	In      []byte  `json:"in"`
 	Def     DefSpec `json:"def"`
 	Mode    int     `json:"mode"`  // 0 safe, 1 fast
-	Entry   int     `json:"entry"` // 0 = Decode() function (safe only), 1 = NewDecoder().Decode
+	Entry   int     `json:"entry"` // 0 = Decode() function (safe only), 1 = NewDecoder().Decode, 2 = used Decoder (see Warm)
+	MaxBuf  int     `json:"max_buf,omitempty"` // entry 2: WithMaxBufferSize(MaxBuf)
+	Warm    []byte  `json:"warm,omitempty"`    // entry 2: decoded, queried and closed on the same Decoder before In
 	Queries []Query `json:"queries"`
 }
 
@@ -223,9 +225,24 @@ func oracleC13(c *LCase) (f *ev.Failure, wellFormed bool) {
 		res = &v
 	} else {
 		var dec *lazyproto.Decoder
-		dec, err = lazyproto.NewDecoder(def, lazyproto.WithMode(modeOf(c.Mode)))
+		opts := []lazyproto.Option{lazyproto.WithMode(modeOf(c.Mode))}
+		if c.Entry == 2 {
+			opts = append(opts, lazyproto.WithMaxBufferSize(c.MaxBuf))
+		}
+		dec, err = lazyproto.NewDecoder(def, opts...)
 		if err != nil {
 			return ev.Failf("C13/newdecoder-error", "NewDecoder on a valid definition: %v", err), wellFormed
+		}
+		if c.Entry == 2 {
+			// a Decoder that has been used before: what the earlier message was must not matter
+			stage = "warm-up"
+			if w, werr := dec.Decode(c.Warm); werr == nil {
+				for _, q := range c.Queries {
+					_ = evalReal(w, q)
+				}
+				_ = w.Close()
+			}
+			stage = "decode"
 		}
 		res, err = dec.Decode(c.In)
 	}
@@ -528,14 +545,26 @@ func mutateBytes(t *rapid.T, b []byte) []byte {
 func genLCase(t *rapid.T) *LCase {
 	in, infos, def := genLMsg(t, 3)
 	c := &LCase{In: in, Def: *def}
-	c.Entry = rapid.IntRange(0, 2).Draw(t, "entry")
-	if c.Entry > 1 {
+	c.Entry = rapid.IntRange(0, 3).Draw(t, "entry")
+	if c.Entry > 2 {
 		c.Entry = 1
 	}
-	if c.Entry == 1 {
+	if c.Entry >= 1 {
 		c.Mode = rapid.IntRange(0, 1).Draw(t, "mode")
 	}
 	c.Queries = genQueries(t, infos, rapid.IntRange(1, 6).Draw(t, "nq"))
+	if c.Entry == 2 {
+		c.MaxBuf = rapid.SampledFrom([]int{0, 1, 1, 2, 3, 8, 1024}).Draw(t, "maxbuf")
+		// the earlier message: 1..3 copies of the case's own message (same numbers and wire types, more
+		// occurrences than the buffer limit) around an unrelated one
+		for i, n := 0, rapid.IntRange(1, 3).Draw(t, "copies"); i < n; i++ {
+			c.Warm = append(c.Warm, in...)
+		}
+		if rapid.Bool().Draw(t, "other") {
+			other, _, _ := genLMsg(t, 1)
+			c.Warm = append(c.Warm, other...)
+		}
+	}
 	if rapid.IntRange(0, 4).Draw(t, "mutate") == 0 {
 		c.In = mutateBytes(t, c.In)
 	}
@@ -545,7 +574,7 @@ func genLCase(t *rapid.T) *LCase {
 	return c
 }
 
-const ruleC13 = "case = schema-free message (0..5 distinct numbers incl. 2^26 and 2^29-1, per number a plan {varint, fixed32, fixed64, bytes incl. empty, packed varint/fixed32/fixed64, nested message incl. empty, depth <= 3}, 0..5 occurrences interleaved in random order, unrequested numbers may mix wire types) + definition (random subset of present numbers, absent numbers, nested definitions, negative tags, misfit nested declarations) + 1..6 queries (tag path, accessor out of all 26 + NestedResult(s), route FieldData/FieldData(path)/helper/NestedResults) x {safe, fast} x {Decode function, Decoder}; 1 in 5 inputs mutated (truncate, overwrite, hostile length, random bytes); " +
+const ruleC13 = "case = schema-free message (0..5 distinct numbers incl. 2^26 and 2^29-1, per number a plan {varint, fixed32, fixed64, bytes incl. empty, packed varint/fixed32/fixed64, nested message incl. empty, depth <= 3}, 0..5 occurrences interleaved in random order, unrequested numbers may mix wire types) + definition (random subset of present numbers, absent numbers, nested definitions, negative tags, misfit nested declarations) + 1..6 queries (tag path, accessor out of all 26 + NestedResult(s), route FieldData/FieldData(path)/helper/NestedResults) x {safe, fast} x {Decode function, fresh Decoder, Decoder with WithMaxBufferSize {0,1,2,3,8,1024} that has already decoded, served the same queries for and closed an earlier message built from 1..3 copies of the case's message and an unrelated one}; 1 in 5 inputs mutated (truncate, overwrite, hostile length, random bytes); " +
 	"oracle: refwire parse of the same bytes + accessor table (last occurrence, all occurrences with packed runs expanded, sub-message values, raw bytes for negative tags, not-found / not-defined / mismatch / overflow classes via errors.Is/As); malformed: no panic; " +
 	"non-trivial = >= 2 distinct numbers on the wire and >= 1 requested number present, or malformed input; distinct by (bytes, definition, queries)"
 
@@ -597,7 +626,7 @@ func classifyLCase(rec *ev.Recorder, c *LCase, wf bool) {
 		if !wf {
 			key = "malformed"
 		}
-		rec.Sample(key, map[string]any{"in_hex": fmt.Sprintf("%x", c.In), "def": c.Def, "mode": c.Mode, "entry": c.Entry, "queries": c.Queries})
+		rec.Sample(key, map[string]any{"in_hex": fmt.Sprintf("%x", c.In), "def": c.Def, "mode": c.Mode, "entry": c.Entry, "max_buf": c.MaxBuf, "warm_len": len(c.Warm), "queries": c.Queries})
 	}
 }
 
